@@ -10,9 +10,15 @@ src, prop, sid = sys.argv[1], sys.argv[2], sys.argv[3]
 checks = [prop]
 if "--checks" in sys.argv:
     checks = sys.argv[sys.argv.index("--checks") + 1].split(",")
-ROOT = "/verif"
+# lanes: SEED_ROOT = verif tree whose ./check is run (default /verif), SEED_REPO = repository tree the change is
+# applied to for the checks (default /repo), SEED_TAG = suffix of the scratch target dir; results are always filed
+# under /verif/seeded/.  With a lane (tools/mkwork.sh lane1 ...) several seeds can be confirmed at the same time.
+ROOT = os.environ.get("SEED_ROOT", "/verif")
+REPO = os.environ.get("SEED_REPO", "/repo")
+TAG = os.environ.get("SEED_TAG", "")
+FILE_ROOT = "/verif"
 wt = f"/tmp/seedchk-{sid}"
-env = dict(os.environ, CARGO_NET_OFFLINE="true", CARGO_TARGET_DIR="/tmp/seedchk-target")
+env = dict(os.environ, CARGO_NET_OFFLINE="true", CARGO_TARGET_DIR="/tmp/seedchk-target" + TAG)
 def sh(cmd, cwd=None, timeout=3000, e=None):
     p = subprocess.run(cmd, shell=True, cwd=cwd, env=(e or dict(os.environ, CARGO_NET_OFFLINE="true")), stdout=subprocess.PIPE, stderr=subprocess.STDOUT, text=True, timeout=timeout)
     return p.returncode, p.stdout
@@ -38,24 +44,24 @@ try:
 finally:
     subprocess.run(f"git -C /repo worktree remove --force {wt}", shell=True, capture_output=True)
 # registered checks against /repo with the change applied
-st = subprocess.run("git -C /repo status --porcelain --untracked-files=no | grep -v 'csv$'", shell=True, capture_output=True, text=True).stdout.strip()
+st = subprocess.run(f"git -C {REPO} status --porcelain --untracked-files=no | grep -v 'csv$'", shell=True, capture_output=True, text=True).stdout.strip()
 if st:
-    print("refusing: /repo has local modifications:\n" + st); sys.exit(2)
-rc, out = sh(f"git -C /repo apply {src}/patch.diff")
+    print(f"refusing: {REPO} has local modifications:\n" + st); sys.exit(2)
+rc, out = sh(f"git -C {REPO} apply {src}/patch.diff")
 res["checks"] = {}
 try:
     for c in checks:
-        rc, out = sh(f"./check {c} --tier quick", cwd=ROOT, timeout=3000)
+        rc, out = sh(f"./check {c} --tier quick", cwd=ROOT, timeout=3000, e=dict(os.environ, CARGO_NET_OFFLINE="true", VERIF_REPO=REPO))
         line = [l for l in out.splitlines() if l.startswith(("VIOLATION", "OK", "KNOWN"))]
         res["checks"][c] = {"rc": rc, "line": line[-1] if line else out[-300:]}
         rp = [w for l in line for w in l.split() if w.startswith("replay=")]
         if rp and os.path.exists(rp[-1][7:]):
             res["checks"][c]["replay_head"] = open(rp[-1][7:]).read()[:1200]
 finally:
-    sh("git -C /repo checkout -- .")
+    sh(f"git -C {REPO} checkout -- .")
     # the evidence written while the change was applied describes the mutated tree: restore the committed one
-    sh("git -C /verif checkout -- evidence/")
-dst = os.path.join(ROOT, "seeded", sid)
+    sh(f"git -C {ROOT} checkout -- evidence/")
+dst = os.path.join(FILE_ROOT, "seeded", sid)
 shutil.rmtree(dst, ignore_errors=True)
 os.makedirs(dst)
 shutil.copy(os.path.join(src, "patch.diff"), dst)
